@@ -25,7 +25,8 @@ RULE = ("cases drawn from one PRNG (VERIF_SEED). view: a random tree (depth <= 3
         "class toggles, style strings and style properties, rendered by RenderHtml::to_html(); document: <Title>, "
         "<Meta name content>, <Link href>, <Html attr:lang>, <Body attr:class> of leptos_meta plus a body view, "
         "rendered under a real ServerMetaContext and passed through the real inject_meta_context over a fixed shell; "
-        "static: eight fixed view! invocations whose hostile strings are literals (macro-inlined / inert path); "
+        "static: twelve fixed view! invocations whose hostile strings are literals (top-level builder path and nested, "
+        "macro-inlined inert path); "
         "template: thirteen view! templates (text child, attribute, class, style, href, input value, Option child, "
         "list item, textarea, class: toggle, custom element, title, closure child) with the generated string in the "
         "dynamic slot. Strings come from an adversarial alphabet (< > & \" ' / = ` NUL, <!--, -->, ]]>, </script, "
@@ -173,7 +174,7 @@ def gen_document(rng):
     return [3, title, metas, link, lang, cls, body]
 
 
-N_STATIC = 8
+N_STATIC = 12
 N_TEMPLATES = 13
 
 
@@ -341,6 +342,15 @@ STATIC_EXPECT = [
     [("el", "input", [("value", 'a"b<c>&d'), ("placeholder", "'x'")], [])],
     [("el", "section", [], [("el", "div", [("id", "`=`")], [("text", "`<`")]), ("el", "br", [], []),
                             ("el", "span", [], [("text", "\u2028\U0001F600")])])],
+    [("el", "div", [], [("el", "p", [], [("text", "</p><img src=x onerror=alert(1)>")]),
+                        ("el", "span", [("title", '"><script>alert(1)</script>')], [("text", "</span><script>alert(2)</script>")])])],
+    [("el", "section", [], [("el", "div", [("class", 'a" onclick="alert(1)'), ("data-x", "&quot;&amp;")],
+                                 [("text", "&lt;b&gt;&amp;amp;<b>x</b>")]),
+                            ("el", "textarea", [], [("text", "</textarea><img src=x>")])])],
+    [("el", "div", [], [("el", "span", [], [("text", "<!--")]), ("el", "span", [], [("text", "--><script>alert(1)</script>")]),
+                        ("el", "input", [("value", "'\"><svg onload=alert(1)>")], [])])],
+    [("el", "ul", [], [("el", "li", [], [("el", "a", [("href", "javascript:alert('x')\"<>")], [("text", "<a href=x>")])]),
+                       ("el", "li", [("id", "</li></ul><p>")], [("text", "</li></ul>")])])],
 ]
 
 
